@@ -181,7 +181,11 @@ def k_seq(run, case):
                 with CollectionRec() as crec:
                     if f == "traj":
                         markers = bool(rng.random() < .5)
-                        plot.traj(ax, mode, tr, plot_start_end_markers=markers, label="a")
+                        # (optional arguments by keyword, or positionally in the published order)
+                        if rng.random() < .6:
+                            plot.traj(ax, mode, tr, plot_start_end_markers=markers, label="a")
+                        else:
+                            plot.traj(ax, mode, tr, "-", "black", "a", 1.0, markers)
                         calls = rec.of("plot")
                         ok = len(calls) == 1 and len(calls[0][1]) >= len(idx) and \
                             all(same(calls[0][1][d], P[:, i]) for d, i in enumerate(idx))
@@ -196,8 +200,11 @@ def k_seq(run, case):
                     elif f == "traj_colormap":
                         err = np.abs(rng.normal(size=n))
                         markers = bool(rng.random() < .5)
-                        plot.traj_colormap(ax, tr, err, mode, float(err.min()), float(err.max()), fig=fig,
-                                           plot_start_end_markers=markers)
+                        if rng.random() < .6:
+                            plot.traj_colormap(ax, tr, err, mode, float(err.min()), float(err.max()), fig=fig,
+                                               plot_start_end_markers=markers)
+                        else:
+                            plot.traj_colormap(ax, tr, err, mode, float(err.min()), float(err.max()), "", fig, markers)
                         check_segments(run, case, crec, [(P[k], P[k + 1]) for k in range(n - 1)], idx,
                                        "colour-mapped segment k joins pose k and k+1", "colormap:wrong-segments", where)
                         if markers:
@@ -221,9 +228,15 @@ def k_seq(run, case):
                 axarr = fig.subplots(3)
                 recs = [AxRec(a) for a in axarr]
                 if f == "traj_xyz":
-                    plot.traj_xyz(axarr, tr, start_timestamp=start, length_unit=unit)
+                    if rng.random() < .6:
+                        plot.traj_xyz(axarr, tr, start_timestamp=start, length_unit=unit)
+                    else:
+                        plot.traj_xyz(axarr, tr, "-", "black", "", 1.0, start, unit)
                 else:
-                    plot.traj_rpy(axarr, tr, start_timestamp=start)
+                    if rng.random() < .6:
+                        plot.traj_rpy(axarr, tr, start_timestamp=start)
+                    else:
+                        plot.traj_rpy(axarr, tr, "-", "black", "", 1.0, start)
                 x_want = (T - start if start else T) if stamped else np.arange(n, dtype=float)
                 for i in range(3):
                     calls = recs[i].of("plot")
@@ -264,7 +277,10 @@ def k_seq(run, case):
                     continue
                 ax = fig.gca()
                 rec = AxRec(ax)
-                plot.speeds(ax, tr, start_timestamp=start)
+                if rng.random() < .6:
+                    plot.speeds(ax, tr, start_timestamp=start)
+                else:
+                    plot.speeds(ax, tr, "-", "black", "", 1.0, start)
                 calls = rec.of("plot")
                 x_want = (T - start if start else T)[1:]
                 seg = np.linalg.norm(np.diff(P, axis=0), axis=1) / np.diff(T)
